@@ -322,6 +322,57 @@ def i2_csv_grouping(F, r):
         r.ok("csv import: grouping", "no adjacency-based grouping")
 
 
+def b1_break_ids_consecutive(F, r):
+    """optional breaks of a shift become jobs `{vehicle}_break_{shift}_{k}`; the re-reader probes k = 1, 2, ... and stops at the first id it does not find, so the ids must be
+    CONSECUTIVE over the optional breaks: the counter is paired with the breaks AFTER the required ones are filtered out (decided on the iterator types of the zip)"""
+    root = "vrp_pragmatic::format::problem::job_reader::read_optional_breaks"
+    if root not in F.fns:
+        raise AnchorError(root)
+    n = 0
+    for g in F.family(root):
+        fn = F.fns[g]
+        for bi, t in mir.calls(fn):
+            last = t["callee"].split("::")[-1]
+            if last not in ("zip", "enumerate") or not t["callee"].startswith("core::iter::traits::iterator::Iterator::") or not t["ga"]:
+                continue
+            tys = " | ".join(t["ga"])
+            if "model::VehicleBreak" not in tys:
+                continue
+            n += 1
+            filtered = "adapters::filter_map::" in tys or "adapters::filter::" in tys
+            if filtered:
+                r.ok("read_optional_breaks: break numbering", "optional breaks are numbered after the required ones are filtered out (ids _1, _2, ... without gaps)")
+            else:
+                r.fail("read_optional_breaks: break numbering", "the break counter runs over ALL breaks of the shift (numbering before the optional filter): a required break listed before an "
+                       "optional one leaves a gap in the ids, and the initial-solution reader — which probes _1, _2, ... and stops at the first missing id — cannot match the break of a "
+                       "solution the solver wrote", F.loc(g, t["ln"]))
+    if n == 0:
+        r.ok("read_optional_breaks: break numbering", "not decided: the optional breaks are not numbered by zip / enumerate over the break list")
+
+
+def t1_matcher_inclusive_windows(F, r):
+    """re-reading a solution: an activity is matched to a job place (and its tag) when its interval TOUCHES the place's window — the solver may serve a job exactly at the
+    end of its window, and the writer emits the tag of that place. Every window test of the activity matcher is the inclusive `intersects`, never `intersects_exclusive`."""
+    mod = "vrp_pragmatic::format::solution::activity_matcher"
+    n = 0
+    for fid, fn in sorted(F.fns.items()):
+        if "::promoted[" in fid or F.fns.get(F.root_of(fid), fn)["module"] != mod:
+            continue
+        for bi, t in mir.calls(fn):
+            last = t["callee"].split("::")[-1]
+            if last not in ("intersects", "intersects_exclusive") or "TimeWindow" not in t["callee"] and "TimeSpan" not in t["callee"] and "TimeOffset" not in t["callee"]:
+                continue
+            n += 1
+            inst = f"{util.short_fn(F.root_of(fid))}: window test"
+            if last == "intersects_exclusive":
+                r.fail(inst, "the activity matcher tests a place window with `intersects_exclusive`: an activity served exactly at the end (or start) of its window no longer matches its "
+                       "place / tag, so a solution the solver wrote cannot be read back (`cannot match job`)", F.loc(fid, t["ln"]))
+            else:
+                r.ok(inst, "inclusive")
+    if n < 3:
+        raise AnchorError(f"only {n} window tests found in the activity matcher (4 counted on the pinned tree)")
+
+
 def run(ctx):
     ctx.explanation = (
         "serde symmetry of the pragmatic document models (syn AST scan joined with type facts): every document type derives both Serialize and Deserialize, "
@@ -333,5 +384,7 @@ def run(ctx):
     ctx.run("C11-S1", "document types: both derives, no one-sided attributes, symmetric renames, skip only for None options", s1_symmetry, floor=90)
     ctx.run("C11-S2", "untagged variants distinguishable on re-reading; tagged variants unique", s2_untagged, floor=8)
     ctx.run("C11-I1", "initial-solution reader visits every tour / stop / activity of the document", i1_reader_visits_everything, floor=3)
+    ctx.run("C11-B1", "optional break job ids are consecutive (the re-reader stops at the first missing id)", b1_break_ids_consecutive, floor=1)
+    ctx.run("C11-T1", "activity matcher: place windows are tested inclusively (a job served at the end of its window is matched)", t1_matcher_inclusive_windows, floor=3)
     ctx.run("C11-I2", "CSV import groups rows by id, not by adjacency", i2_csv_grouping, floor=1)
     ctx.run("C11-S4", "CSV import records: every column consumed", s4_csv_liveness, floor=10)
